@@ -375,18 +375,12 @@ theorem initWith_pinv (cfg : Config S) (P : NodeId → Proto S σ) (pre : List (
 
 theorem reachable_pinv {cfg : Config S} (hdt : 0 ≤ cfg.dt) {P : NodeId → Proto S σ} {w : World S σ}
     (h : Reachable cfg P w) : PInv w := by
-  obtain ⟨pre, n, rfl⟩ := h
-  suffices ∀ n (w : World S σ), WInv w → PInv w → WInv (steps cfg P n w) ∧ PInv (steps cfg P n w) from
-    (this n _ (initWith_inv cfg P hdt pre) (initWith_pinv cfg P pre)).2
-  intro n
-  induction n with
-  | zero => intro w hw hp; exact ⟨hw, hp⟩
-  | succ n ih =>
-    intro w hw hp
-    have hprep : WInv (prep cfg P w) := by
-      unfold prep; split
-      · exact hw
-      · exact (initialise_inv cfg P w hw).1
-    exact ih _ (step_inv cfg hdt P w hw).1 (step_pinv cfg P w hw hp hprep)
+  refine h.rec_inv (init_pinv cfg P) (fun w hr hp => ?_) (fun w n p _ hp => runProg_pinv cfg n p w hp)
+  have hw := reachable_inv hdt hr
+  have hprep : WInv (prep cfg P w) := by
+    unfold prep; split
+    · exact hw
+    · exact (initialise_inv cfg P w hw).1
+  exact step_pinv cfg P w hw hp hprep
 
 end Sim
